@@ -25,7 +25,8 @@ def check(tier="quick", seed=0):
         try:
             d = json.loads(so)
         except Exception:
-            return {"name": "ground.std_diff", "error": "worker under %s failed: %s" % (h, (se or "")[-300:]), "obligations": [], "violations": []}
+            from ground.common import worker_failed
+            return worker_failed("ground.std_diff", h, se, repo)
         hosts.append(d["host"])
         n += d["evaluations"]
         for x in d["diffs"]:
